@@ -98,6 +98,12 @@ def gen_value(rng, pool=None):
         return rng.choice(pool)
     n = rng.choice(VALUE_LENGTHS)
     r = rng.random()
+    if r > 0.97:
+        # contents that look like something else: a 32-byte hash (of a pool value), the rlp of a leaf / of a two-item node
+        # holding a hash, single bytes at the rlp boundaries, 32 zero bytes
+        base = (pool[0] if pool else b"a")
+        return rng.choice([keccak(base), rlp.encode([b"\x20", base[:8]]), rlp.encode([b"\x00\x12", keccak(base)]),
+                           b"\x00", b"\x7f", b"\x80", b"\xc0", b"\xff", bytes(32), b"\x80" * 33])
     if r < 0.04:
         n = rng.choice(BIG_VALUE_LENGTHS)      # rlp long strings: one and two length bytes
     elif r < 0.043:
